@@ -1512,3 +1512,47 @@ def _slice_sort_by(ctx, p, clos):
         ents[a + k] = (True, v)
     ctx.write(Ptr(p.root, p.path), tuple(v for _, v in ents) if isinstance(whole, tuple) else Seq(tuple(ents)))
     return UNIT
+
+
+@model(r'^<.* as std::iter::Iterator>::try_fold::<.*>$')
+def _iter_try_fold(ctx, p, init, clos):
+    """try_fold with a closure returning Result / Option / ControlFlow: stops at the first Err / None / Break"""
+    it = ctx.deref(p) if isinstance(p, (Ptr, PtrIte)) else p
+    ents = _ents(ctx, _as_iter(ctx, it))
+    m = re.search(r'try_fold::<(.*)>$', ctx.callee)
+    rty = mirparse_split(m.group(1))[-1].strip() if m else ''
+    kind = 'result' if rty.startswith('std::result::Result<') else ('option' if rty.startswith('std::option::Option<') else None)
+    if kind is None:
+        raise Unsupported('try_fold with residual type %s' % rty[:60])
+    alive = True
+    acc = init
+    broke = None          # residual value once stopped
+    for g, v in ents:
+        r = call_under(ctx, b_and(g, alive), clos, [acc, v])
+        if r is None:
+            continue
+        if kind == 'result':
+            cont = lift(z3.simplify(bv(r.d) == 0)) if not isinstance(r.d, CI) else (r.d.v == 0)
+            nxt = r.pay[0][0] if 0 in r.pay else acc
+            res = r.pay[1] if 1 in r.pay else None
+        else:
+            cont = opt_is_some(r)
+            nxt = opt_val(r) if opt_val(r) is not None else acc
+            res = ()
+        step = b_and(g, alive)
+        stop_here = b_and(step, b_not(cont))
+        if res is not None and stop_here is not False:
+            broke = res if broke is None else tuple(ite(stop_here, a, b) for a, b in zip(res, broke)) if res else ()
+        acc = ite(b_and(step, cont), nxt, acc)
+        alive = b_and(alive, b_or(b_not(g), cont))
+    if kind == 'result':
+        pay = {0: (acc,)}
+        if broke is not None:
+            pay[1] = broke
+        return Enum(ite(alive, CI(0, 64), CI(1, 64)), pay)
+    return mk_option(alive, acc)
+
+
+def mirparse_split(s):
+    from .mirparse import split_top
+    return split_top(s)
